@@ -84,7 +84,7 @@ def main():
                     n += 1
         old_meta = os.path.join(dst, "meta.json")
         if os.path.exists(old_meta):
-            for k in ("needs", "ran", "rebased"):
+            for k in ("needs", "ran", "rebased", "relabelled"):
                 v = json.load(open(old_meta)).get(k)
                 if v:
                     meta[k] = v
